@@ -583,14 +583,13 @@ func ruleFirstAnchorWins(c *Ctx, rule string) {
 // (A field missing from the table is not cloned, not walked and not checked for sharing.)
 func ruleRegistryNotFilteredByName(c *Ctx, rule string) {
 	n := 0
-	for _, fn := range c.P.Funcs {
-		top := fn
-		for top.Parent() != nil {
-			top = top.Parent()
+	var initFns []*ssa.Function
+	for _, m := range c.P.SSAPkg.Members {
+		if f, ok := m.(*ssa.Function); ok && strings.HasPrefix(f.Name(), "init") {
+			initFns = append(initFns, c.initFamily(f)...)
 		}
-		if !c.P.InPkg(fn) || !strings.HasPrefix(top.Name(), "init") {
-			continue
-		}
+	}
+	for _, fn := range initFns {
 		core.EachInstr(fn, func(i ssa.Instruction) {
 			call, ok := i.(*ssa.Call)
 			if !ok || core.CalleeKey(&call.Call) != "builtin.append" {
